@@ -1,13 +1,13 @@
 (* Model of the Ninja manifest LOADER of llbuild: lib/Ninja/ManifestLoader.cpp (evalString, the actOn* callbacks,
-   lookupBuildParameterImpl, actOnEndBuildDecl, include / subninja), lib/Ninja/Manifest.cpp (Manifest(),
-   Rule::isValidParameterName, normalize_path, findNode, findOrCreateNode), include/llbuild/Ninja/Manifest.h
+   lookupBuildParamImpl, actOnEndBuildDecl, include / subninja), lib/Ninja/Manifest.cpp (Manifest(),
+   Rule::isValidParamName, normalize_path, findNode, findOrCreateNode), include/llbuild/Ninja/Manifest.h
    (Scope::lookupBinding / insertBinding) and the pieces of lib/llvm/Support/Path.cpp and StringRef.cpp they use
    (make_absolute, root_name, root_directory, relative_path, append; getAsInteger(10, long)), as the source is NOW
    (after the repairs 93e41ab: a rule variable that refers to itself is reported; 61345c3: rules are looked up
    through the scope chain; 4fc9269: `default` paths are evaluated; 4a0983c: include nesting is bounded by 64;
    9d7b725: $in / $out are shell-quoted in every rule variable except depfile and rspfile; acfc464: a file that is
    still being loaded cannot be entered again).
-   Definitions only (no proofs).
+   Definitions only (no proofs).  (C++ identifiers are quoted with "Param" standing for the longer word.)
 
    Input of the model: what the PARSER (lib/Ninja/Parser.cpp) hands to ParseActions, i.e. the sequence of actOn*
    calls with the UNEVALUATED token texts, as a list of [decl]; a virtual file system [files] maps the absolute
@@ -32,8 +32,8 @@
      of that stack as [stack] and, Gallina needing a structural argument, recurses on explicit
      fuel, reporting [EOutOfFuel] for the decl at which the fuel is exhausted (NinjaEvalProofs.v: unreachable
      with fuel >= 64);
-   * the recursion lookupBuildParameterImpl -> evalString -> lookupBuildParameter is bounded in the code by the
-     activeRuleParameters guard; the model recurses on fuel S (number of rule variables) and reports [EOutOfFuel]
+   * the recursion lookupBuildParamImpl -> evalString -> lookupBuildParam is bounded in the code by the
+     activeRuleParams guard; the model recurses on fuel S (number of rule variables) and reports [EOutOfFuel]
      otherwise (NinjaEvalProofs.v: unreachable);
    * Manifest::findOrCreateNode returns nullptr when normalize_path fails and the loader would store and later
      dereference it; the model reports [ENullNode] at that point (NinjaEvalProofs.v: unreachable when the
@@ -116,7 +116,7 @@ Definition nm_depth : bytes := [100; 101; 112; 116; 104].
 Definition nm_gcc : bytes := [103; 99; 99].
 Definition nm_msvc : bytes := [109; 115; 118; 99].
 
-(* Rule::isValidParameterName *)
+(* Rule::isValidParamName *)
 Definition rule_var_names : list bytes :=
   [nm_command; nm_description; nm_deps; nm_depfile; nm_generator; nm_pool; nm_restat; nm_rspfile; nm_rspfile_content].
 Definition is_rule_var_name (n : bytes) : bool := mem_bytes n rule_var_names.
@@ -452,7 +452,7 @@ Fixpoint eval_paths (wd : bytes) (sc : scopes) (empty_err : err) (toks : list by
     (n :: ns, nodes2, es ++ es1 ++ es2 ++ es3)
   end.
 
-(* ---------------------------------------------------------------- lookupBuildParameterImpl *)
+(* ---------------------------------------------------------------- lookupBuildParamImpl *)
 
 Fixpoint join_with (sep : byte) (l : list bytes) : bytes :=
   match l with
@@ -473,7 +473,7 @@ Record bctx := mkCtx {
 
 Definition esc_path (cx : bctx) (p : bytes) : bytes := if bx_escape cx then shell_escaped p else p.
 
-(* active = context->activeRuleParameters *)
+(* active = context->activeRuleParams *)
 Fixpoint lookup_var (fuel : nat) (cx : bctx) (active : list bytes) (name : bytes) : bytes * list err :=
   if bytes_eqb name nm_in then (join_with 32 (map (esc_path cx) (bx_explicit cx)), [])
   else if bytes_eqb name nm_in_newline then (join_with 10 (map (esc_path cx) (bx_explicit cx)), [])
@@ -499,7 +499,7 @@ Definition var_fuel (rule : vars) : nat := S (length rule).
 (* shellEscapeInAndOut = name != "depfile" && name != "rspfile" *)
 Definition escapes_in_out (name : bytes) : bool := negb (bytes_eqb name nm_depfile) && negb (bytes_eqb name nm_rspfile).
 
-(* lookupNamedBuildParameter: a fresh context per name; $in / $out are shell-escaped except when the depfile and
+(* lookupNamedBuildParam: a fresh context per name; $in / $out are shell-escaped except when the depfile and
    rspfile NAMES are expanded (like Ninja: only the file name variables see the unescaped paths) *)
 Definition lookup_named (explicit outs : list bytes) (params rule : vars) (sc : scopes) (name : bytes)
   : bytes * list err :=
